@@ -51,6 +51,53 @@ def is_nonneg(p) -> bool:
     return True
 
 
+COMPUTED_TAGS = {"comp", "sqrt", "abs", "inv", "pow", "max", "min", "sign", "sign+", "round", "exp", "log", "clip", "ite", "fro",
+                 "sumsq", "re", "im", "norm", "nrm"}
+
+
+def known_zero_keys(decision_log):
+    """Keys of the values that the decisions of a path imply to be exactly zero: np.any(v) == False, v == 0 True,
+    bool(v) False, |v| == 0 ...  Returned as a set of element keys (Poly / SQ / NQ .key())."""
+    out = set()
+
+    def add(v):
+        try:
+            out.add(v.key())
+        except Exception:
+            pass
+        if isinstance(v, (SQ, NQ)):
+            for c in v.c:
+                out.add(c.key())
+
+    for cond, _node, dec in decision_log:
+        why = getattr(cond, "why", None)
+        if not isinstance(why, tuple) or not why:
+            continue
+        tag = why[0]
+        if tag == "any" and dec is False:
+            for v in why[1]:
+                if is_unknown(v):
+                    w = getattr(v, "why", None)
+                    if isinstance(w, tuple) and w and w[0] == "ne" and _is_zero_const(w[2]):
+                        add(w[1])
+                else:
+                    add(v)
+        elif tag == "truth" and dec is False:
+            add(why[1])
+        elif tag == "eq" and dec is True and _is_zero_const(why[2]):
+            add(why[1])
+        elif tag == "ne" and dec is False and _is_zero_const(why[2]):
+            add(why[1])
+    return out
+
+
+def _is_zero_const(x):
+    try:
+        return Poly.lift(x).is_zero()
+    except Exception:
+        return getattr(x, "is_zero", lambda: False)()
+
+
 def _atoms_if_plain(elems):
     """atoms whose vanishing makes every element vanish, if every element is +-coef*atom (or a SQ/SC of such)"""
     out = set()
@@ -71,7 +118,10 @@ def _atoms_if_plain(elems):
             s = c.as_single_atom()
             if s is None or s[2] <= 0:
                 return None
-            out.add(s[1])
+            a = s[1]
+            if isinstance(a, tuple) and a and a[0] in COMPUTED_TAGS:
+                return None          # a derived quantity cannot be made zero by specialising inputs
+            out.add(a)
     return frozenset(out)
 
 
@@ -127,13 +177,15 @@ def default_choice(interp, node, cond):
     base = bool(outcome) if outcome is not None else False
     SCEN.decisions += 1
     if SCEN.mode == "generic":
-        if site not in SCEN.seen_sites:
-            SCEN.seen_sites.add(site)
-            SCEN.alts.append(("force", site))
         if zeros:
+            # a consistent input specialisation realises the other outcome: analyse that (never the bare forced branch, which
+            # would pair the special-case code path with generic, i.e. contradictory, data)
             key = ("zero", zeros)
             if key not in SCEN.alts:
                 SCEN.alts.append(key)
+        elif site not in SCEN.seen_sites:
+            SCEN.seen_sites.add(site)
+            SCEN.alts.append(("force", site))
     if site in SCEN.force_sites:
         return not base
     return base
